@@ -288,14 +288,52 @@ def refName (t : TmpSt) (n : Name) : TmpRef :=
       else .plain n
   | _ => .plain n
 
+/-- the statements that define a symbol: a label (in front of a machine instruction, a pseudo instruction or a macro call,
+or alone on its line), `EQU` / `=`, `SET` / `EVAL` / `:=` (pseudo-instructions.md "SET, EQU"), `LABEL` ("identical to EQU,
+but … gets the attribute code"), a member of `ENUM` / `NEXTENUM` ("equal to a definition with EQU") -/
+inductive DefBy where
+  | label | equ | set | labelStmt | enumMember
+deriving Repr, DecidableEq
+
+/-- Which definitions end the validity of the temporary symbols?  "temporary symbols which remain valid as long as a new,
+non-temporary symbol gets defined", "a counter which … gets incremented upon **every definition** of a non-temporary
+symbol", "the name of the **most recently-defined symbol** not beginning with a dot": the manual makes no difference
+between the defining statements, so every one of them opens a new range. -/
+def opensRange : DefBy → Bool
+  | .label => true
+  | .equ => true
+  | .set => true
+  | .labelStmt => true
+  | .enumMember => true
+
+/-- a temporary symbol's name: `$$name`, `.name`, `+`, `-`, `/` -/
+def isTemporary : Name → Bool
+  | 36 :: 36 :: _ => true
+  | 46 :: _ => true
+  | [45] => true
+  | [43] => true
+  | [47] => true
+  | _ => false
+
 /-- names a *definition* creates (a `/` has a forward and a backward name) and the new counter state -/
-def defNames (t : TmpSt) (n : Name) : TmpSt × List Name :=
+def defNames (t : TmpSt) (n : Name) (src : DefBy := .label) : TmpSt × List Name :=
   match n with
   | 36 :: 36 :: r => (t, [r ++ [35] ++ (toString t.area).toList.map Char.toNat])
   | 46 :: _ => (t, [t.last ++ n])
   | [45] => ({ t with bdefs := t.bdefs + 1 }, [numName 45 t.bdefs])
   | [43] => ({ t with fdefs := t.fdefs + 1 }, [numName 43 t.fdefs])
   | [47] => ({ t with fdefs := t.fdefs + 1, bdefs := t.bdefs + 1 }, [numName 43 t.fdefs, numName 45 t.bdefs])
-  | _ => ({ t with area := t.area + 1, last := n }, [n])
+  | _ => (if opensRange src then { t with area := t.area + 1, last := n } else t, [n])
+
+/-- `ENUM` (pseudo-instructions.md): "a sequence of integer constants that are assigned sequential values starting at 0";
+"`NEXTENUM` … the internal counter … will then not be reset to zero"; "it is possible to assign explicit values to individual
+symbols.  The internal counter will be updated accordingly".  `cur` is the counter on entry (0 for `ENUM`); result: the
+members with their values and the counter afterwards. -/
+def enumVals (cur : Int) : List (Name × Option Int) → List (Name × Int) × Int
+  | [] => ([], cur)
+  | (n, v) :: r =>
+    let c := v.getD cur
+    let (l, e) := enumVals (c + 1) r
+    ((n, c) :: l, e)
 
 end AslModel.Scope
